@@ -60,7 +60,7 @@ sys.exit(rc)
 
 
 def make_sandbox_path(root, extra_links=()):
-    d = os.path.join(root, "sbin")
+    d = os.path.join(root, f"sbin-{os.getpid()}")
     os.makedirs(d, exist_ok=True)
     for name, body in (("argv_dump", _ARGV_DUMP), ("exitn", _EXITN), ("writer", _WRITER), ("tagger", _TAGGER)):
         p = os.path.join(d, name)
